@@ -26,6 +26,11 @@ def scenarios(tier, seed):
             sc["stampvar"] = True
         if rl.random() < 0.3:          # a state variable that is not configured for output must not appear in the file
             sc["out_drop"] = rl.sample(["Z", "age", "farm"], rl.choice([1, 1, 2]))
+    rc = random.Random(seed + 29)
+    for sc in scs:       # a plug-in may tidy the state up itself (State.compactify is public): the record is the same, in the dense layout too (column = identifier)
+        if sc["kill"] and rc.random() < 0.4:
+            n = sc["cls"]["nsteps"]
+            sc["ibm_compact"] = sorted(rc.sample(range(n), min(n, rc.choice([1, 2, 3]))))
     return scs
 
 
@@ -63,6 +68,6 @@ def run(tier, seed):
     rep.add_tv("e2e-records-after-restart", "LadimTrace", owners, rs, tlc.validate_traces("LadimTrace", rs, batch_events=1500), family=FAMILY)
     rep.nontrivial = len({repr((s["rows"], s["kill"], s["ops"], s["numrec"], s["layout"])) for s in scs if s["kill"]})
     rep.rule = ("random end-to-end scenarios (two thirds with 2-5 scripted deaths and freezes, particle variables, lon/lat output, sparse/dense, split files, two runs with 270-780 particles over 24-40 steps and 8-20 files, "
-                "several reference times); non-trivial = distinct (release table, kills, period, split, layout) with at least one death")
+                "several reference times, in 40 % of the runs with deaths an IBM that calls State.compactify itself after scripted steps); non-trivial = distinct (release table, kills, period, split, layout) with at least one death")
     rep.assumptions = ["files are read back with netCDF4 row by row; instance variables are written as f8/i4 so that 'the values the model state had' is exact equality"]
     return rep
